@@ -161,7 +161,6 @@ var bitmapReturnGrowOnly = map[string]string{
 	"(*roaring.bitmapContainer).orArray":                "union with a bitmap container",
 	"(*roaring.bitmapContainer).orBitmap":               "union with a bitmap container",
 	"(*roaring.bitmapContainer).clone":                  "copy of a valid bitmap container",
-	"(*roaring.bitmapContainer).toEfficientContainer":   "returns the receiver only when it is the cheapest form",
 	"(*roaring.arrayContainer).lazyIOR":                 "lazy union: repaired by repairAfterLazy",
 	"(*roaring.arrayContainer).lazyorArray":             "lazy union: repaired by repairAfterLazy",
 	"(*roaring.arrayContainer).lazyIorArray":            "lazy union: repaired by repairAfterLazy",
